@@ -317,6 +317,17 @@ theorem div_num_si (g : T.Good) (a o : Qty) (x : Q) (h : div T a (.q o) = .ok (.
       field_simp
     · split at h <;> simp at h
 
+/-- … hence a quotient of two non-null quantities is never 0, however small the ratio, and it gives the dividend
+    back when multiplied by the divisor's magnitude (no snapping to a nearby integer) -/
+theorem div_num_ne_zero (g : T.Good) (a o : Qty) (x : Q) (h : div T a (.q o) = .ok (.n x))
+    (ha : a.value ≠ 0) (ho : o.value ≠ 0) : x ≠ 0 ∧ x * siMag T o = siMag T a := by
+  have hx := div_num_si g a o x h
+  have hpa : siMag T a ≠ 0 := mul_ne_zero ha (ne_of_gt (g.pos a.kind a.unit))
+  have hpo : siMag T o ≠ 0 := mul_ne_zero ho (ne_of_gt (g.pos o.kind o.unit))
+  refine ⟨?_, ?_⟩
+  · rw [hx]; exact div_ne_zero hpa hpo
+  · rw [hx]; field_simp
+
 /-- C06: (a + b) − b = a for quantities of the same kind -/
 theorem qty_add_sub_cancel (a o s : Qty) (hk : o.kind = a.kind)
     (h1 : add T a (.q o) = .ok (.q s)) (r : Qty) (h2 : sub T s (.q o) = .ok (.q r)) : r = a := by
